@@ -61,11 +61,11 @@ class PipelineChart(PipelineChartBase, PipelineChartLike):
                 error=None,
             )
 
-            await ctx.emit_on_pipeline_complete(result=result)
-            return result
-
         except Exception as ex:
             result = PipelineResult(pipeline_id=pipeline_id, value=None, error=ex)
-            await ctx.emit_on_pipeline_complete(result=result)
 
-            return result
+        # The event is emitted once, outside the try block: an event manager that fails here must not make the other
+        # managers see a second, different completion of the same run
+        await ctx.emit_on_pipeline_complete(result=result)
+
+        return result
